@@ -5,6 +5,10 @@ V: a type-aware generator (harness) produces programs (module level and wrapped 
    real evaluator runs them; every record (AST, transcript, outcome) is judged by Trace_Sem.tla:
    transcript, failure kind and failure line must equal Sem's.
 G: TLC-enumerated small programs (ProgGen.tla) replayed on the real evaluator (when present).
+X: ExprGen.tla: every operation form (operators, slicing shapes, builtins, methods, % and .format
+   argument shapes) x every pair of operand shapes from a catalogue of 20 values, written as
+   variables or literals, at module level or inside a def; TLC computes each case with Sem.tla,
+   the harness replays it.
 """
 import json
 import os
@@ -71,6 +75,9 @@ def run(tier):
         elif json.dumps(o["out"], sort_keys=True) != json.dumps(c["out"], sort_keys=True):
             verdict.disagree({"engine": "G", "kind": "transcript", "outcome": c["kind"] or "ok"},
                              {"program": S.slim(o), "templates": c["ix"], "wrapped": c["wrap"], "sem": {"out": c["out"], "kind": c["kind"]}})
+    # X: every operation form x operand shapes (ExprGen.tla), operands written as variables (the
+    # literal / mixed spellings are C02's share in the quick tier; thorough runs all of them here too)
+    xs = S.exprgen("ExprGen_c01q.cfg" if tier == "quick" else "ExprGen_t.cfg", wd, "c01", verdict, workers=8 if tier == "quick" else 14)
     judged = stats["n"] - stats["skipped"]
     failing = sum(v for k, v in meta["kinds"].items() if k)
     other = meta["kinds"].get("other", 0)
@@ -79,8 +86,9 @@ def run(tier):
     rc = verdict.finish()
     sample = rows[len(rows) // 3]
     C.write_evidence(PROP, tier, "model_checking", {
-        "states": states + g_states, "transitions": states + g_states,
-        "traces_validated_against_impl": judged + len(g_cases) - g_skipped,
+        "states": states + g_states + xs["states"], "transitions": states + g_states + xs["states"],
+        "traces_validated_against_impl": judged + len(g_cases) - g_skipped + xs["cases"] - xs["skipped"],
+        "exprgen": {k: xs[k] for k in ("sessions", "cases", "skipped", "bad", "forms", "kinds")},
         "tlc_generated_programs": len(g_cases), "tlc_generated_failing": sum(1 for c in g_cases if c["kind"]),
         "samples": [{"src": sample["src"], "out": sample["out"][:5], "err": sample["err"]}],
         "evaluations": n, "distinct_nontrivial": len({r["src"] for r in rows if len(r["out"]) >= 1}),
@@ -91,8 +99,9 @@ def run(tier):
         "statically_rejected_by_impl": meta["static_rejected"],
         "failing_programs": failing, "outcome_kinds": meta["kinds"], "error_kind_other": other,
         "disagreements": len(bad),
-        "sem_layer": "1 (ints, bools, None, strings, lists, tuples, dicts, slicing, comprehensions, closures, def/lambda "
-                     "with defaults/*args/**kwargs, if/for/break/continue/return, shared builtins and methods)",
+        "sem_layer": "1 + 2, Python-shared part (ints, bools, None, strings, lists, tuples, dicts, slicing, comprehensions, closures, "
+                     "def/lambda with defaults/*args/**kwargs, if/for/break/continue/return, the shared builtins, every string / list / dict "
+                     "method, % and .format, f-strings, int(text, base), chr/ord, bit operators)",
     }, time.time() - t0, len(verdict.violations),
         assumptions=["TLC evaluates Sem.tla faithfully", "harness printer/encoder/error-kind table",
                      "programs on which Sem reports spec_domain are not judged"])
